@@ -117,7 +117,7 @@ pub fn run(ctx: &Ctx, out: &mut Out) {
         crate::c09::replay_history(out, "C07", r);
         return;
     }
-    let scen = ctx.share(48, 1_600);
+    let scen = ctx.share(2_400, 24_000);
     for i in 0..scen {
         let gi = i * ctx.nshards + ctx.shard;
         let mut cfg = HConfig::new(&rng.bytes(32));
